@@ -638,7 +638,13 @@ fn process_request_obj(request: &Request, dbs: &Arc<Databases>, client: &mut Cli
             };
             Response::Ok {}
         }),
-        Request::Arbiter {} => apply_to_database(&dbs, &client, &|db| db.register_arbiter(&client)),
+        Request::Arbiter {} => apply_if_safe_access(
+            &dbs,
+            &client,
+            &String::from(crate::consensus_ops::CONFLICTS_KEY),
+            &|db| db.register_arbiter(&client),
+            PermissionKind::Read,
+        ),
         Request::Resolve {
             opp_id,
             db_name,
